@@ -301,6 +301,9 @@ func (e *Environment) Get(name string) (Object, bool) {
 	if ref, ok := e.makeRef(name); ok {
 		return *ref, true
 	}
+	// Not bound now, it may be the next time (and the error can be caught): what the function returns depends
+	// on more than its arguments.
+	e.getMiss++
 	return nil, false
 }
 
